@@ -549,7 +549,8 @@ async fn probe(path: &str) {
     ctx.register_table("u", mk_table(&TableDef { name: "u".into(), cols: t.cols.clone() }, &l)).unwrap();
     println!("initial   {}", layout_sx(&l));
     for s in sqls {
-        if s.to_uppercase().starts_with("SELECT") || s.to_uppercase().starts_with("EXPLAIN") {
+        let up = s.to_uppercase();
+        if !(up.starts_with("INSERT") || up.starts_with("UPDATE") || up.starts_with("DELETE")) {
             match ctx.sql(&s).await {
                 Ok(df) => match df.collect().await {
                     Ok(bs) => println!("{s}\n{}", arrow::util::pretty::pretty_format_batches(&bs).unwrap()),
